@@ -95,3 +95,41 @@ def slot_family(mode: str, version: int, thorough: bool):
         for ex in ([3], [0, 5], [11]):
             out.append(("slots:skip:n%d:e%s" % (n, "-".join(map(str, ex))),) + slot_program(mode, version, n, ex, "shared-explicit"))
     return out
+
+
+def typed_slot_program(mode: str, version: int, n_auto: int, explicit: List[int], placement: str = "main"):
+    """automatic uint64 variables next to explicitly numbered BYTES variables: were two of them to share a
+    slot, a consumer would meet a value of the wrong type (C05), not just a wrong value"""
+    e = Env(mode, version)
+    V: Dict[str, Dict] = {}
+    autos = ["a%d" % i for i in range(n_auto)]
+    for a in autos:
+        V[a] = {"t": "u"}
+    exps = []
+    for j, sid in enumerate(explicit):
+        V["e%d" % j] = {"t": "b", "slot": sid}
+        exps.append("e%d" % j)
+    st: List[Any] = []
+    half = autos[: n_auto // 2] if placement == "interleaved" else autos
+    rest = [a for a in autos if a not in half]
+    for i, a in enumerate(half):
+        st.append(("Store", a, marker(e, i)))
+    for j, x in enumerate(exps):
+        st.append(("Store", x, ("Un", "Itob", marker(e, 1000 + j))))
+    for i, a in enumerate(rest):
+        st.append(("Store", a, marker(e, 500 + i)))
+    st.append(e.tag(77))
+    for a in autos:
+        st.append(("Un", "Pop", ("Bin", "Add", ("Load", a), ("Int", 1))))
+    for x in exps:
+        st.append(("Un", "Pop", ("Un", "Len", ("Load", x))))
+    st.append(("Return", ("Int", 1)))
+    return prog(mode, ("Seq",) + tuple(st), V, {})
+
+
+def typed_slot_family(mode: str, version: int):
+    out = []
+    for n, ex in ((3, [1, 2]), (4, [3]), (6, [2, 3, 4]), (3, [0, 1]), (5, [1, 3]), (4, [0, 2, 3]), (2, [1]), (7, [5, 6]), (9, [8]), (12, [10])):
+        for pl in ("main", "interleaved"):
+            out.append(("slots-typed:n%d:e%s:%s" % (n, "-".join(map(str, ex)), pl), typed_slot_program(mode, version, n, ex, pl), {}))
+    return out
